@@ -168,7 +168,7 @@ func (r *relayInst) shutdown() {
 	}
 	close(r.closed)
 	r.wrap.Close()
-	r.cs.Close()
+	go r.cs.Close() // in the background: a code store that dead-locked never lets go of its mutex
 }
 
 // ---- token construction from a spec: k=v;k=v with typed values
